@@ -77,16 +77,29 @@ func calculateCurrentAge(
 	}
 	apparentAge := max(responseTime.Sub(date), 0)
 	responseDelay := max(responseTime.Sub(requestTime), 0)
-	correctedAgeValue := time.Duration(ageVal)*time.Second + responseDelay
+	ageValue := maxDuration
+	if int64(ageVal) <= maxDeltaSeconds {
+		ageValue = time.Duration(max(ageVal, 0)) * time.Second
+	}
+	correctedAgeValue := saturatingAdd(ageValue, responseDelay)
 	correctedInitialAge := max(apparentAge, correctedAgeValue)
 	residentTime := max(clock.Since(responseTime), 0)
 	return &Age{
-		Value:     correctedInitialAge + residentTime,
+		Value:     saturatingAdd(correctedInitialAge, residentTime),
 		Timestamp: clock.Now(),
 	}
 }
 
-const maxDuration = 1<<63 - 1
+const maxDuration time.Duration = 1<<63 - 1
+
+// saturatingAdd adds two non-negative durations, returning maxDuration
+// instead of wrapping around on overflow.
+func saturatingAdd(a, b time.Duration) time.Duration {
+	if a > maxDuration-b {
+		return maxDuration
+	}
+	return a + b
+}
 
 // FreshnessCalculator describes the interface implemented by types that can
 // calculate the freshness of a cached response based on request and response
